@@ -45,7 +45,14 @@ func (c *vChain) FetchScriptHashRelatedTx([][]byte, uint64, uint64, *config.Para
 // the real apply step: afterwards the wallet coin T spent is unspent again (index and balance restored), T's
 // own output is no longer a mined coin, and T is a pending transaction again - recorded so that the readers
 // of the pending set can decode it, with its input marked spent-by-pending.
-func VerifC01RollbackMinedTx() {
+func VerifC01RollbackMinedTx() { vRollbackMinedTx(false) }
+
+// VerifC12RollbackAddressRecord: the same step when the paid address already has a record - issued and unused
+// (height 0), or first paid in an earlier block: the record keeps the height of the first payment through the
+// apply step, and the rollback of the later payment's block leaves it (the address is still used).
+func VerifC12RollbackAddressRecord() { vRollbackMinedTx(true) }
+
+func vRollbackMinedTx(hadRecord bool) {
 	a := vApplySetupID(true)
 	s := a.s
 	// coins that exist one after the other never add up to more than the money supply (Rollback adds the
@@ -58,6 +65,17 @@ func VerifC01RollbackMinedTx() {
 	s.tx.chainFetcher = &vChain{tx: &a.rec.MsgTx}
 	s.bal.Set([]byte(verifWID), []byte{0, 0, 0, 0, 0, 0, 0, 0})
 	bal := map[string]massutil.Amount{verifWID: a.coin.amount}
+	// C12: the paid address may already have a record: issued and unused (height 0) or first paid in an
+	// earlier block (height h0 below this block)
+	var h0 uint64
+	if hadRecord {
+		h0 = rt.NondetU64()
+		rt.Assume(h0 < a.block.Height)
+		ar := &addressRecord{walletId: verifWID, encodeAddress: vPk(vP2WSH(a.shOut)).StdEncodeAddress(), addressClass: massutil.AddressClassWitnessV0, blockHeight: h0}
+		ak, kerr := keyAddressRecord(ar)
+		rt.Assert(kerr == nil, "address-key")
+		s.a.Set(ak, valueAddressRecord(ar))
+	}
 	err := mwdb.Update(s.db, func(dbtx mwdb.DBTransaction) error {
 		if e := s.tx.AddRelevantTx(dbtx, bal, a.rec, a.block); e != nil {
 			return e
@@ -78,7 +96,11 @@ func VerifC01RollbackMinedTx() {
 		return
 	}
 	// the paid address is recorded as used from this block on (C12: used flag)
-	rt.Assert(len(s.a.Ents) == 1 && readAddressHeight(s.a.Ents[0].V) == a.block.Height, "paid-address-marked-used-at-the-block-height")
+	if hadRecord && h0 > 0 {
+		rt.Assert(len(s.a.Ents) == 1 && readAddressHeight(s.a.Ents[0].V) == h0, "address-record-keeps-the-height-of-its-first-payment")
+	} else {
+		rt.Assert(len(s.a.Ents) == 1 && readAddressHeight(s.a.Ents[0].V) == a.block.Height, "paid-address-marked-used-at-the-block-height")
+	}
 	err = mwdb.Update(s.db, func(dbtx mwdb.DBTransaction) error { return s.tx.Rollback(dbtx, a.block.Height) })
 	rt.Assert(err == nil, "rollback-succeeds")
 	if err != nil {
@@ -105,7 +127,22 @@ func VerifC01RollbackMinedTx() {
 		}
 		rt.Assert(got == a.balBefore, "balance-restored")
 	}
-	rt.Assert(len(s.a.Ents) == 0, "address-no-longer-used-once-its-first-payment-is-gone")
+	if hadRecord && h0 > 0 {
+		rt.Assert(len(s.a.Ents) == 1 && readAddressHeight(s.a.Ents[0].V) == h0, "address-still-used-while-its-first-payment-is-on-the-chain")
+		rt.Reach("later-payment-rolled-back")
+	} else {
+		used := false
+		for _, e := range s.a.Ents {
+			used = used || readAddressHeight(e.V) > 0
+		}
+		rt.Assert(!used, "address-no-longer-used-once-its-first-payment-is-gone")
+		if hadRecord {
+			// the address was issued (PutNewAddress wrote its record with height 0) before it was paid: it
+			// stays listed, as unused
+			rt.Assert(len(s.a.Ents) == 1, "issued-address-still-listed-after-its-first-payment-is-rolled-back")
+			rt.Reach("first-payment-of-an-issued-address-rolled-back")
+		}
+	}
 	// records of the disconnected block are gone
 	_, tv := existsTxRecord(s.t, &a.rec.Hash, a.block)
 	rt.Assert(tv == nil && len(s.b.Ents) == 0, "block-and-transaction-records-removed")
